@@ -164,6 +164,12 @@ class Run(object):
         net.fire(ev, variant)
         if ev.kind == 'frame' and variant == 'ok' and ev.meta and ev.meta.get('tag') is not None:
           ev.conn.peer.answered(ev.meta['tag'])
+        if ev.kind == 'frame' and variant == 'ok' and ev.meta and ev.meta.get('ping') is not None and self.p.get('hangup_after_ping') is not None \
+           and not getattr(self, '_hung_up', False) and lp.now() >= vloop.EPOCH + self.p['hangup_after_ping']:
+          # the server answers the handshake ping and hangs up in the same breath (it was only half back)
+          self._hung_up = True
+          vloop.run_ready(budget=self.p.get('hangup_after_callbacks', 0))      # ... after that many callbacks of the client have run
+          net.inject(ev.conn, 'eof')
         continue
       t = lp.next_timer()
       if t is None or t.at > self.horizon:
@@ -363,6 +369,13 @@ def histories(tier):
                           [(u1, u1 + gap + 0.35, u1 + gap + 0.35 + out2) for u1 in (4.0, 9.0, 16.0) for gap in (8.0, 16.0, 30.0) for out2 in (3.0, 12.0, 40.0)]:
         out.append({'stack': stack, 'endpoints': n, 'mode': 'refuse', 'down_at': 2.25, 'up_at': None, 'horizon': 160,
                     'downs': {'0': d2}, 'ups': {'0': u1 + 0.0125}, 'ups2': {'0': u2 + 0.0125}, 'second_outage': True})
+    # the endpoint is reachable again, answers the first handshake ping of the reconnect and hangs up at once; then it is really back
+    if stack == 'mux':
+      for n in (1, 2):
+        for up in (6.0, 11.0):
+          for k in range(0, 10 if tier == 'quick' else 16):
+            out.append({'stack': stack, 'endpoints': n, 'down_at': 2.25, 'mode': 'refuse', 'up_at': up + 0.0125, 'hangup_after_ping': up,
+                        'hangup_after_callbacks': k, 'horizon': 160})
     # the caller closes the client in the very moment one of its calls fails
     for n in (1, 2):
       for mode in ('refuse', 'stall'):
